@@ -19,6 +19,8 @@ knowledge base and every state with bounds in `[0,1]`:
 import LnnVerif.Lemmas.Basic
 import Mathlib.Algebra.Order.Field.Rat
 import Mathlib.Tactic.NormNum
+import LnnVerif.Lemmas.PendLemmas
+import LnnVerif.Lemmas.FolAmount
 
 set_option linter.unusedSectionVars false
 
@@ -185,4 +187,54 @@ example : (runPass c13KB [Call.down 2 none] c13T).1 = c13T :=
 /-- the reported `1/4` is the loss of potential -/
 example : Phi [0, 1, 2] c13S - Phi [0, 1, 2] c13T = 1/4 := by
   simp [Phi, c13S, c13T]; norm_num
+/-! ### grounding propagation through a partially quantified formula reports nothing and moves nothing -/
+
+section pend
+
+variable {ι : Type} [DecidableEq ι] {α : Type} [Field α] [LinearOrder α]
+
+/-- the amount a layered call reports is the amount of the plain call, made on a state in which
+every grounding of every formula reads exactly as before the propagation step -/
+theorem C13_layer_amount (kb : FKB ι α) (i : ι) (idx : Option Nat) (p : PState ι α) :
+    (pUp kb i p).2 = (fUp kb i p.st).2 ∧
+    (pDown kb i idx p).2 = (fDown kb i idx (preDown kb i p).st).2 ∧
+    ∀ k g, Table.getD (kb k).world ((preDown kb i p).st.get k) g = Table.getD (kb k).world (p.st.get k) g :=
+  ⟨rfl, rfl, fun k g => preDown_read kb i p k g⟩
+
+end pend
+
+/-! ### first-order tables and quantifiers: the reported amount is zero exactly when no query changed
+
+`reads kb s i g` is what `get_data(g)` of formula `i` returns (the stored bounds, else the world
+default). For every first-order knowledge base with world defaults in [0,1], every state in [0,1]
+and every node kind: a call — and any sequence of calls — reports a non-negative amount, and
+reports 0 if and only if every grounding of every formula reads exactly as before (rows created
+at their world default change no read). -/
+
+section fol
+
+variable {ι : Type} [DecidableEq ι] {α : Type} [Field α] [LinearOrder α] [IsStrictOrderedRing α]
+
+open FolAmount
+
+theorem C13_fol_nonneg (kb : FKB ι α) (cs : List (FCall ι)) (s : FState ι α) :
+    0 ≤ (runFCalls kb cs s).2 :=
+  runFCalls_amount_nonneg kb cs s
+
+theorem C13_fol_up_zero_iff (kb : FKB ι α) (hw : FolAmount.WorldsInUnit kb) (i : ι) (s : FState ι α)
+    (hs : SInUnit s) : (fUp kb i s).2 = 0 ↔ SameReads kb s (fUp kb i s).1 :=
+  fUp_amount_zero_iff kb hw i s hs
+
+theorem C13_fol_down_zero_iff (kb : FKB ι α) (hw : FolAmount.WorldsInUnit kb) (i : ι) (idx : Option Nat)
+    (s : FState ι α) (hs : SInUnit s) : (fDown kb i idx s).2 = 0 ↔ SameReads kb s (fDown kb i idx s).1 :=
+  fDown_amount_zero_iff kb hw i idx s hs
+
+/-- a whole pass (any schedule) -/
+theorem C13_fol_pass_zero_iff (kb : FKB ι α) (hw : FolAmount.WorldsInUnit kb) (cs : List (FCall ι))
+    (s : FState ι α) (hs : SInUnit s) :
+    (runFCalls kb cs s).2 = 0 ↔ SameReads kb s (runFCalls kb cs s).1 :=
+  runFCalls_amount_zero_iff kb hw cs s hs
+
+end fol
+
 end LNN
